@@ -224,3 +224,7 @@ def run(ctx):
         nf = [p for p in ret_paths(ps) if unwrap_err(p.end[1]) is not None and not find_calls(p.end[1], "from_residual")]
         ok = bool(nf) and all(any(is_call(c.term, "Path::is_dir") and c.fact == ("eq", False) for c in p.conds()) for p in nf)
         ctx.check(ok, "D4-OPEN", OP, "neither", "neither file nor directory -> Err", "open() does not reject a path that is neither a directory nor a file", fn_span(body), nontrivial=False)
+
+    # ---- the accessors through which each listed package is observed
+    for fld in ("pkgname", "pkgbase", "pkgversion"):
+        accessor_faithful(ctx, "D2-ACCESSOR", "pkgdb::Package::%s" % fld, fld)
